@@ -156,10 +156,13 @@ func (tr TxRequest) empty() bool { return len(tr.Operations) == 0 }
 
 func (tr TxRequest) size() int { return len(tr.Operations) }
 
-func (tr TxRequest) commitTo(db xkv.Atomic) (err error) {
+// commitTo applies the operations of tr that supersede the stored digest and returns
+// them. The lease for a key is decided when the operation is added to a transaction; by
+// the time the transaction commits another leaseholder's newer operation may have been
+// stored for the key, and it must not be replaced by an older one.
+func (tr TxRequest) commitTo(db xkv.Atomic) (kept []Operation, err error) {
 	b := db.OpenTx()
 	defer func() {
-		tr.Operations = nil
 		if err != nil {
 			err = b.Close()
 		} else if _err := b.Commit(tr.Context); _err != nil {
@@ -168,16 +171,25 @@ func (tr TxRequest) commitTo(db xkv.Atomic) (err error) {
 		tr.done(err)
 	}()
 	for _, op := range tr.Operations {
+		sup, supErr := supersedes(tr.Context, b, op)
+		if supErr != nil {
+			err = supErr
+			return nil, err
+		}
+		if !sup {
+			continue
+		}
 		if _err := op.apply(tr.Context, b); _err != nil {
 			err = _err
-			return err
+			return nil, err
 		}
 		if _err := op.Digest().apply(tr.Context, b); _err != nil {
 			err = _err
-			return err
+			return nil, err
 		}
+		kept = append(kept, op)
 	}
-	return err
+	return kept, err
 }
 
 func (tr TxRequest) done(err error) {
